@@ -11,11 +11,14 @@ let options_of (j : json) : options =
     o_label_alignment = (if to_str (field j "label_alignment") = "left" then ALeft else ARight);
     o_code_margin = nat_of_int (to_int (field j "code_margin")) }
 
-(* format_source: null = parse diagnostics (or the parser model ran out of fuel / panicked) *)
+(* format_source: null = parse diagnostics (or the parser model ran out of fuel / panicked);
+   shaped = spec/FormatSource.v's parser_shaped on the parsed token list (the hypothesis of C12_source_chars_partial) *)
 let h_format_source (req : json) : json =
   let o = options_of (field req "fmt") in
-  match format_source o (text_of (field req "text")) with
-  | Some t -> Obj [ ("formatted", jtext t) ]
-  | None -> Obj [ ("formatted", Null) ]
+  let text = text_of (field req "text") in
+  let shaped = match source_shaped text with Some b -> Bool b | None -> Null in
+  match format_source o text with
+  | Some t -> Obj [ ("formatted", jtext t); ("shaped", shaped) ]
+  | None -> Obj [ ("formatted", Null); ("shaped", shaped) ]
 
 let () = main_loop [ ("format_source", h_format_source) ]
